@@ -159,6 +159,17 @@ func (c *c15) addScanFamilies(cx *Ctx, add func(name string, n int, gen func(i i
 	}
 	md := []string{"interface{}", "string", "int", "int8", "[]interface{}", "[]int8"}
 	add("scan-multi", len(multi)*len(md), func(i int) *Item { return mk("scan-multi", multi[i/len(md)], md[i%len(md)], true) })
+	// several variables bound to DIFFERENT lists of different lengths (a later, shorter list must not end up in an
+	// earlier entry's storage)
+	lists := []string{
+		"X = [1,2,3], Y = [4,5,6], Z = [7] .", "X = [1,2,3,4], Y = [5], Z = [6,7] .", "Z = [9,8,7], X = [1], Y = [2,3] .",
+		"X = [a,b,c], Y = [d,e], Z = [f] .", "X = [[1,2],[3]], Y = [[4]], Z = [[5,6,7]] .", "X = [1.5,2.5], Y = [3.5], Z = [] .",
+		"X = [1,2,3], Y = X, Z = [4] .", "A = [1,2,3,4,5], B = [6,7], C = [8], X = [9,10,11] .",
+	}
+	ld := []string{"[]int", "[]int8", "[]int64", "[]interface{}", "[]string", "[][]int", "[]float64", "interface{}"}
+	add("scan-multi-lists", len(lists)*len(ld), func(i int) *Item {
+		return mk("scan-multi-lists", scanValue{name: "several lists: " + lists[i/len(ld)], query: lists[i/len(ld)], flag: "codes"}, ld[i%len(ld)], false)
+	})
 	// round trip: a Go value goes in through '?' and comes back through Scan into its own type and into interface{}
 	rt := []string{"string", "int", "int8", "int16", "int32", "int64", "float64", "float32", "[]int", "[]int8", "[]int16", "[]int32", "[]int64", "[]string",
 		"[]float64", "[]float32", "[][]int", "[][]int8", "[][]string", "[][]float64", "[][][]int"}
@@ -638,6 +649,20 @@ func (c *c15) judgeScan(m *c15Meta, it *Item, o *run.Outcome) Verdict {
 				return fail(cls, fmt.Sprintf("%s stored %s with a nil error: expected %s", what, goValText(cell.Val), x.want))
 			}
 			v.Extra["scan_exact_values_confirmed"]++
+			// a map destination receives every variable: each entry must hold that variable's value
+			if cell.Shape == "map" && cell.All != nil {
+				for _, k := range keys {
+					if k == "X" {
+						continue
+					}
+					y := scanModel(cell.Dest, r.Answer[k], false)
+					got := cell.All[k]
+					if (y.mode == mMust || y.mode == mEither) && y.match != nil && got != nil && !y.match(got) {
+						return fail("", fmt.Sprintf("Scan into %s stored %s for the variable %s = %s with a nil error: expected %s", dest, goValText(got), k, treeText(r.Answer[k]), y.want))
+					}
+					v.Extra["scan_other_variables_confirmed"]++
+				}
+			}
 		case mError:
 			if strings.HasPrefix(cell.Val.K, "other:") {
 				v.Extra["not_asserted_scan_opaque_value"]++
